@@ -196,6 +196,13 @@ func (ft *fnTrans) run() {
 		vc.global("fv:"+fv.Name(), fmt.Sprintf("(declare-const %s %s)", n, vc.sorts.sortOf(fv.Type())))
 		ft.vals[fv] = n
 	}
+	// package initialiser: verified for its first (only effective) execution
+	if fn.Synthetic == "package initializer" && fn.Pkg != nil {
+		if g, ok := fn.Pkg.Members["init$guard"].(*ssa.Global); ok {
+			vc.assume(not(vc.get(ft.entry, vc.compGlobal(g))))
+			vc.assumed["package initialiser verified for its first execution (init guard false on entry)"] = true
+		}
+	}
 	ft.collectNames()
 	ft.findLoops()
 	// preconditions
